@@ -65,6 +65,10 @@ def nontrivial(kind, ins, outs):
         return bool(outs) and outs[0] == "1"
     if kind == "live":
         return len(outs) >= 2 and outs[1] == "250"
+    if kind == "lower":
+        return bool(ins) and ins[0] != "-"
+    if kind == "valid":
+        return len(outs) >= 2 and outs[1] == "1"
     return True
 
 
